@@ -318,6 +318,10 @@ pub enum Ending {
     AppReset,
     /// the target aborts (RST) at the end of its script
     TargetReset,
+    /// the application closes its socket outright as soon as it has written everything (answers may be in flight)
+    AppAbandon,
+    /// the target closes its socket outright as soon as it has written everything
+    TargetAbandon,
 }
 
 #[derive(Clone, Debug, Serialize, Deserialize, PartialEq)]
@@ -335,6 +339,10 @@ pub struct TcpFlow {
     /// is outside the property)
     pub target_waits_for: usize,
     pub ending: Ending,
+    /// None: the target listens. "refused": nobody listens there. "unresolvable": the name is not in the zone.
+    /// "blackhole": the dial never completes.
+    #[serde(default)]
+    pub target_fault: Option<String>,
 }
 
 impl TcpFlow {
